@@ -74,6 +74,24 @@ func (q *queue) len() uint64 {
 func (q *queue) push(ctx context.Context) (EvictFunc, <-chan core.Listener) {
 	q.mu.Lock()
 	defer q.mu.Unlock()
+	return q.pushLocked(ctx)
+}
+
+// pushIfBelow enqueues the caller unless the queue already holds maxSize elements. The length
+// check and the insertion happen under one lock so that callers arriving together cannot all
+// pass the check and exceed the bound.
+func (q *queue) pushIfBelow(ctx context.Context, maxSize uint64) (EvictFunc, <-chan core.Listener, bool) {
+	q.mu.Lock()
+	defer q.mu.Unlock()
+	if uint64(q.list.Len()) >= maxSize {
+		return nil, nil, false
+	}
+	evict, releaseChan := q.pushLocked(ctx)
+	return evict, releaseChan, true
+}
+
+// pushLocked requires q.mu to be held.
+func (q *queue) pushLocked(ctx context.Context) (EvictFunc, <-chan core.Listener) {
 	releaseChan := make(chan core.Listener)
 
 	e := &queueElement{ctx: ctx, releaseChan: releaseChan}
@@ -276,15 +294,14 @@ func (l *QueueBlockingLimiter) tryAcquire(ctx context.Context) core.Listener {
 		return listener
 	}
 
-	// Restrict backlog size so the queue doesn't grow unbounded during an outage
-	if l.backlog.len() >= l.maxBacklogSize {
-		return nil
-	}
-
+	// Restrict backlog size so the queue doesn't grow unbounded during an outage.
 	// Create a holder for a listener and block until a listener is released by another
 	// operation.  Holders will be unblocked in LIFO or FIFO order depending on whatever
 	// ordering was configured when backlog was instantiated
-	evict, eventReleaseChan := l.backlog.push(ctx)
+	evict, eventReleaseChan, queued := l.backlog.pushIfBelow(ctx, l.maxBacklogSize)
+	if !queued {
+		return nil
+	}
 
 	// We're using a nil chan so that we
 	// can avoid needing to duplicate the
